@@ -500,7 +500,10 @@ impl JsValue {
             JsVariant::Integer32(0) | JsVariant::Boolean(false) | JsVariant::Null => {
                 Self::new(-0.0)
             }
-            JsVariant::Integer32(num) => Self::new(-num),
+            // `-i32::MIN` is not an i32: fall back to the float negation.
+            JsVariant::Integer32(num) => num
+                .checked_neg()
+                .map_or_else(|| Self::new(-f64::from(num)), Self::new),
             JsVariant::Boolean(true) => Self::new(-1),
             JsVariant::BigInt(x) => Self::new(JsBigInt::neg(&x)),
         })
